@@ -279,8 +279,8 @@ def judge_pair(A, c1, c2, x1, x2):
             return None
         b, x01, I, J = setup(A, c1)
         _, x02, _, _ = setup(A, c2)
-        if not float((abs(A) @ (abs(x1) + abs(x2) + abs(x01) + abs(x02))).max(initial=0.) + abs(b).max(initial=0.)) < 1e150:
-            return None
+        if not 1e-150 < float((abs(A) @ (abs(x1) + abs(x2) + abs(x01) + abs(x02))).max(initial=0.) + abs(b).max(initial=0.)) < 1e150:
+            return None  # residual norms (sums of squares) overflow / underflow: nothing is demanded beyond finiteness and constraints
         AIJ = A[numpy.ix_(I, J)]
         if I.sum() != J.sum() or not I.any() or not numpy.isfinite(AIJ).all() or not numpy.linalg.cond(AIJ) < WELL:
             return None  # solution not unique / not well determined
